@@ -493,3 +493,178 @@ pub fn c08(rep: &mut Report, thorough: bool) {
         }
     }
 }
+
+
+// ------------------------------------------------------------------------------------------ C01
+/// full-frame delivery on the four-controller panel: write_data1 / write_data2 with full buffers
+pub fn c01(rep: &mut Report, thorough: bool) {
+    use crate::props::c15::{check_write, Case};
+    let salts: Vec<u64> = if thorough { (0..24).collect() } else { (0..4).collect() };
+    for plane2 in [false, true] {
+        for s in &salts {
+            // byte sweeps / coded contents come from the salt of the pixel generator; full buffer
+            check_write(&Case { win: None, rows: H, plane2, salt: 0xC0100 + *s }, rep);
+        }
+        check_write(&Case { win: None, rows: 1, plane2, salt: 0xC0177 }, rep);
+    }
+    // memory: each chip's plane holds exactly its rectangle of the image
+    for plane2 in [false, true] {
+        rep.eval(P);
+        let rb = (W / 8) as usize;
+        let p = crate::props::c15::pixels(rb, H as usize, 0xC01AA + plane2 as u64);
+        let mut rig = Rig12::ready();
+        for c in rig.board.borrow_mut().chips.iter_mut() {
+            c.mark();
+        }
+        let op = if plane2 { Op12::Write2(p.clone()) } else { Op12::Write1(p.clone()) };
+        let o = rig.apply(&op);
+        let case = J::obj().set("panel", P).set("op", op.to_json());
+        rep.nontrivial(hash_str(&format!("12c01mem|{}", plane2)));
+        if !o.is_ok() {
+            fail(rep, op.name(), "panic", vec![], o.short(), case);
+            continue;
+        }
+        let b = rig.board.borrow();
+        for (ci, chip) in b.chips.iter().enumerate() {
+            let r = CHIP_RECTS[ci];
+            let pl = &chip.planes[plane2 as usize];
+            let other = &chip.planes[1 - plane2 as usize];
+            let crb = (r.2 / 8) as usize;
+            let mut bad: Option<String> = None;
+            for y in 0..r.3 as usize {
+                for xb in 0..crb {
+                    let want = p[(r.1 as usize + y) * rb + (r.0 / 8) as usize + xb];
+                    let i = y * crb + xb;
+                    if pl.wc[i] != 1 || pl.data[i] != want {
+                        bad = Some(format!("chip {} row {} byte {}: holds {:02X} written {} times, image has {:02X}", CHIP_NAMES[ci], y, xb, pl.data[i], pl.wc[i], want));
+                        break;
+                    }
+                }
+                if bad.is_some() {
+                    break;
+                }
+            }
+            rep.count("plane_bytes_compared", (crb * r.3 as usize) as u64);
+            if let Some(d) = bad {
+                fail(rep, op.name(), "primary-plane-differs", vec![format!("chip={}", CHIP_NAMES[ci])], d, case.clone());
+            }
+            if other.writes != 0 {
+                fail(rep, op.name(), "other-plane-partial", vec![format!("chip={}", CHIP_NAMES[ci])], format!("the other plane of chip {} received {} bytes", CHIP_NAMES[ci], other.writes), case.clone());
+            }
+        }
+    }
+    // display: one refresh per chip, no image data
+    for op in [Op12::Refresh, Op12::BeginRefresh] {
+        rep.eval(P);
+        let mut rig = Rig12::ready();
+        let _ = rig.apply(&Op12::Write1(small_rows(2)));
+        for c in rig.board.borrow_mut().chips.iter_mut() {
+            c.mark();
+        }
+        let r0: Vec<usize> = rig.board.borrow().chips.iter().map(|c| c.refreshes.len()).collect();
+        let o = rig.apply(&op);
+        let case = J::obj().set("panel", P).set("op", op.to_json());
+        rep.nontrivial(hash_str(&format!("12c01disp|{}", op.name())));
+        if !o.is_ok() {
+            fail(rep, op.name(), "panic", vec![], o.short(), case);
+            continue;
+        }
+        let b = rig.board.borrow();
+        for (ci, chip) in b.chips.iter().enumerate() {
+            let n = chip.refreshes.len() - r0[ci];
+            rep.count("refresh_triggers_observed", n as u64);
+            if n != 1 {
+                fail(rep, op.name(), "refresh-count≠1", vec![format!("chip={}", CHIP_NAMES[ci]), format!("n={}", n)], format!("chip {} received {} refresh triggers", CHIP_NAMES[ci], n), case.clone());
+            }
+            if chip.planes[0].writes + chip.planes[1].writes != 0 {
+                fail(rep, op.name(), "image-data-in-display", vec![format!("chip={}", CHIP_NAMES[ci])], "refresh call wrote image memory".into(), case.clone());
+            }
+        }
+    }
+}
+
+// ------------------------------------------------------------------------------------------ C06
+/// partial writes of the 12.48in driver (window per chip = intersection, data exactly once)
+pub fn c06(rep: &mut Report, thorough: bool, seed: u64) {
+    use crate::props::c15::{check_write, Case};
+    let mut rng = Rng::derive(seed, 0x1206);
+    let mut wins: Vec<(u32, u32, u32, u32)> = vec![
+        (0, 0, 8, 1),
+        (W - 8, H - 1, 8, 1),
+        (640, 488, 16, 8),
+        (632, 484, 32, 16),
+        (648, 492, 8, 1),
+        (640, 491, 8, 1),
+        (0, 0, W, H),
+        (0, 490, W, 4),
+        (640, 0, 16, H),
+        (8, 8, 64, 40),
+        (656, 500, 64, 40),
+        (656, 8, 640, 480),
+        (0, 492, 648, 492),
+    ];
+    let n = if thorough { 2000 } else { 120 };
+    for _ in 0..n {
+        let wb = rng.range(1, (W / 8) as i64) as u32;
+        let xb = rng.range(0, (W / 8 - wb) as i64) as u32;
+        let h = if rng.chance(1, 2) { rng.range(1, 24) as u32 } else { rng.range(1, H as i64) as u32 };
+        let y = rng.range(0, (H - h) as i64) as u32;
+        wins.push((xb * 8, y, wb * 8, h));
+    }
+    for (i, w) in wins.iter().enumerate() {
+        for plane2 in [false, true] {
+            check_write(&Case { win: Some(*w), rows: w.3, plane2, salt: 0xC0600 + i as u64 }, rep);
+        }
+    }
+}
+
+// ------------------------------------------------------------------------------------------ C10
+/// wire framing on the shared bus: D/C agreement of the selected chips, one-byte commands,
+/// control lines stable between switch and transfer, LUT padding counts
+pub fn c10(rep: &mut Report) {
+    let mut seqs: Vec<Vec<Op12>> = ops12().into_iter().map(|o| vec![o]).collect();
+    seqs.push(vec![Op12::BeginRefresh, Op12::PollUntilIdle]);
+    seqs.push(vec![Op12::Write1Partial((0, 0, W, H), small_rows(1)), Op12::RefreshPartial((0, 0, W, H))]);
+    for seq in seqs {
+        let mut rig = Rig12::ready();
+        for op in &seq {
+            rep.eval(P);
+            let o = rig.apply(op);
+            let case = J::obj().set("panel", P).set("op", op.to_json());
+            rep.nontrivial(hash_str(&format!("12c10|{}", op.to_json().to_string())));
+            if !o.is_ok() {
+                rep.count("ops_failing_for_other_reasons", 1);
+                break;
+            }
+            let mut fails = Vec::new();
+            crate::props::c15::check_pins(&rig, &mut fails);
+            // a pin change between the control switch and the transfer it qualifies?
+            {
+                let b = rig.board.borrow();
+                let segs = crate::props::common::op_segments(&b.log);
+                let (_, s, e) = *segs.last().unwrap();
+                rep.count("transfers_examined", b.log[s..e].iter().filter(|e| matches!(e, Ev::Spi { .. })).count() as u64);
+                for ev in &b.log[s..e] {
+                    if let Ev::Spi { len, .. } = ev {
+                        if *len > 4096 {
+                            fails.push(("transfer>4096".into(), vec![], format!("bus write of {} bytes", len)));
+                        }
+                    }
+                }
+            }
+            if let Op12::SetLut(r, d) = op {
+                let want = if *r == 0x21 || *r == 0x25 { 42 } else { 60 };
+                let b = rig.board.borrow();
+                for (ci, chip) in b.chips.iter().enumerate() {
+                    match chip.cmds.iter().filter(|c| c.opidx == chip.opidx).find(|c| c.op == *r) {
+                        Some(c) if c.nparams as usize == want.max(d.len()) => {}
+                        other => fails.push(("fill-count".into(), vec!["lut-padding".into()], format!("LUT {:02X} on {}: {:?} bytes, expected {}", r, CHIP_NAMES[ci], other.map(|c| c.nparams), want))),
+                    }
+                }
+            }
+            for (class, tags, detail) in fails {
+                fail(rep, op.name(), &class, tags, detail, case.clone());
+            }
+        }
+    }
+}
